@@ -38,6 +38,13 @@ Theorem C09_window_extraction : forall c chunk s,
 Proof. exact window_extraction. Qed.
 Print Assumptions C09_window_extraction.
 
+(* the packed encoding written by partitionScalars for a signed digit (d >= 0: d,
+   d < 0: (-d-1) | msb) is decoded back to d by the chunk processor, for every digit in range *)
+Theorem C09_signed_digit_encoding : forall c d, 2 <= c -> - 2 ^ (c - 1) <= d <= 2 ^ (c - 1) - 1 ->
+  signed_of_bits c (encode_digit c d) = d /\ 0 <= encode_digit c d < 2 ^ c.
+Proof. exact signed_digit_roundtrip. Qed.
+Print Assumptions C09_signed_digit_encoding.
+
 Section C09.
   Context {F G : Type} (fo : FOps F) (go : GOps F G) (FL : FieldLaws fo) (GL : GroupLaws fo go).
   Hypothesis fofz_add : forall a b, fofz fo (a + b) = fadd fo (fofz fo a) (fofz fo b).
